@@ -341,7 +341,7 @@ func account(rep *common.Report, sc *StressCfg, r *stressRes) {
 		rep.Distribution[sc.Mode+"/"+k] += int(v)
 	}
 	for i, s := range r.Out.Samples {
-		if i < 2 {
+		if i < 1 {
 			rep.Sample(map[string]any{"mode": sc.Mode, "goroutines": sc.Goroutines, "sample": s})
 		}
 	}
